@@ -6,6 +6,7 @@ open Consts
 open Datatypes
 open List0
 open Nat0
+open PeanoNat
 
 val is_hex_lc : coq_N -> bool
 
@@ -39,7 +40,7 @@ type helper =
 type zstate = { upload : bool; cf : bool; sf : bool; eo : bool;
                 stopped : bool; cleaned : bool; hp : helper; reader : 
                 bool; lpend : bool; tcu : bool; tcl : bool; tsv : bool;
-                ksched : bool }
+                ksched : bool; gbegun : bool }
 
 val set_cf : bool -> zstate -> zstate
 
@@ -65,6 +66,8 @@ val set_tsv : bool -> zstate -> zstate
 
 val set_ksched : bool -> zstate -> zstate
 
+val set_gbegun : bool -> zstate -> zstate
+
 type fstate = { zs : zstate; ptr : bool }
 
 val new_session : bool -> zstate
@@ -87,6 +90,7 @@ type event =
 | EvCleanupFire
 | EvClientFire
 | EvServerFire
+| EvGraceBegin
 
 type msg =
 | MStopped
@@ -121,6 +125,8 @@ type output =
 | OArm of timer
 | OStopT of timer
 | OKill
+| OLaunchHelper
+| OCrash
 
 type res = zstate * output list
 
@@ -154,6 +160,8 @@ val helper_readerr : bool -> zstate -> res
 
 val helper_exit : coq_Z -> zstate -> res
 
+val grace_begin : zstate -> res
+
 val launch : bool -> launch_res -> zstate -> res
 
 val cleanup_fire : zstate -> res
@@ -176,8 +184,18 @@ type scripted =
 | ScHelperOut of coq_N list
 | ScHelperExit of coq_Z
 
+type remote_spec = { r_t0 : coq_N; r_period : coq_N; r_max : nat;
+                     r_hdr : coq_N list; r_prompt : coq_N list }
+
+val remote_stopper : output -> bool
+
+val remote_waiting : output list -> bool
+
+val ends_in_cr : coq_N list -> bool
+
 type scenario = { sc_launch : launch_res; sc_autoexit : coq_Z option;
-                  sc_dlpath : bool; sc_readerr : bool list }
+                  sc_dlpath : bool; sc_greet : coq_N list;
+                  sc_remote : remote_spec option; sc_readerr : bool list }
 
 type pend = { p_launch : coq_N option; p_kill : coq_N option;
               p_cleanup : coq_N option; p_client : coq_N option;
@@ -209,13 +227,22 @@ val internal_events : scenario -> event -> internal -> event list
 val scripted_events : event -> scripted -> event list
 
 type tstate = { t_f : fstate; t_p : pend; t_out : output list;
-                t_evs : event list }
+                t_evs : event list; t_rem : nat }
 
 val sessions : output list -> nat
 
 val eof_event : scenario -> tstate -> event
 
+val has_start : output list -> bool
+
+val apply_events1 :
+  bool -> scenario -> coq_N -> event list -> tstate -> tstate * output list
+
+val shell_answers : scenario -> output list -> output list -> event list
+
 val apply_events : bool -> scenario -> coq_N -> event list -> tstate -> tstate
+
+val next_remote : scenario -> tstate -> (coq_N * remote_spec) option
 
 val drain : nat -> bool -> scenario -> coq_N -> tstate -> tstate
 
@@ -244,7 +271,11 @@ val flags_of : zstate -> bool list
 
 val decode_scripted : (coq_N * (coq_N list * coq_Z)) -> scripted
 
+val launches : output list -> coq_N
+
 val zmodem_run_canon :
-  bool -> coq_N -> coq_Z option -> bool -> bool list -> coq_N ->
-  (coq_N * (coq_N * (coq_N list * coq_Z))) list -> ((coq_N * coq_N list)
-  list * coq_N list) * (bool list * (bool * bool))
+  bool -> coq_N -> coq_Z option -> bool -> coq_N list ->
+  (coq_N * (coq_N * (nat * (coq_N list * coq_N list)))) option -> bool list
+  -> coq_N -> (coq_N * (coq_N * (coq_N list * coq_Z))) list ->
+  ((coq_N * coq_N list) list * coq_N list) * (bool
+  list * (bool * (bool * (coq_N * bool))))
